@@ -187,6 +187,7 @@ type world struct {
 	server  *electricpb.ModelServer
 	clk     *fakeClock
 	rng     *scriptReader
+	chMu    sync.Mutex
 	changed bool
 }
 
@@ -234,6 +235,12 @@ func (o op) fieldMask() *fieldmaskpb.FieldMask {
 func (w *world) apply(o op) (out string, err error, panicked bool) {
 	w.clk.now.Store(o.Now)
 	w.rng.script(o.Cands)
+	return w.exec(o)
+}
+
+// exec runs one op without touching the injected clock or the RNG script (concurrent use, and
+// sequential reference runs that share one script across operations).
+func (w *world) exec(o op) (out string, err error, panicked bool) {
 	p, msg := lib.Catch(func() {
 		var m *traits.ElectricMode
 		switch o.Kind {
@@ -283,7 +290,9 @@ func (w *world) apply(o op) (out string, err error, panicked bool) {
 	if err == nil {
 		switch o.Kind {
 		case "setactive", "change", "clear", "s.change", "s.clear":
+			w.chMu.Lock()
 			w.changed = true
+			w.chMu.Unlock()
 		}
 	}
 	return out, err, false
